@@ -76,6 +76,16 @@ func (w *c16Worker) apply(account string, op POp) error {
 				return err
 			}
 		}
+	case "prepare-all-readdressed":
+		// The participant list sent by peer 1 gives identifier 3 the address of instance 1. The share an instance computes
+		// for identifier 3 still belongs to the instance configured as 3.
+		parts := c16Parts()
+		parts[2] = &core.Endpoint{ID: 3, Name: rig.PeerName(1), Port: 8001}
+		for _, id := range c16IDs {
+			if err := w.c.Nodes[id].RecvPrepare(rig.PeerName(1), account, 2, parts); err != nil {
+				return err
+			}
+		}
 	case "execute":
 		return w.c.Nodes[op.At].RecvExecute(rig.PeerName(1), account)
 	case "commit-all":
@@ -134,6 +144,7 @@ func (w *c16Worker) Run(path []POp) (bfs.Outcome, error) {
 	}
 	account := fmt.Sprintf("%s/c16-%d", rig.DistWallet, w.serial.Add(1))
 	out := bfs.Outcome{}
+	w.c.Misrouted = nil
 	for _, op := range path {
 		if err := w.apply(account, op); err != nil {
 			out.Obs = append(out.Obs, "err")
@@ -141,8 +152,19 @@ func (w *c16Worker) Run(path []POp) (bfs.Outcome, error) {
 			out.Obs = append(out.Obs, "ok")
 		}
 	}
+	for _, mr := range w.c.Misrouted {
+		out.Viol = append(out.Viol, bfs.Viol{Key: "share-misrouted", What: "a secret share went to another instance than its owner: " + mr})
+	}
 	state := w.clusterState(account)
 	out.Canon = strings.ReplaceAll(state, account, "a")
+	// The session summary shows participant identifiers only; which addresses the last accepted participant list carried
+	// is part of the state as well.
+	for i := len(path) - 1; i >= 0; i-- {
+		if strings.HasPrefix(path[i].Kind, "prepare-all") && out.Obs[i] == "ok" {
+			out.Canon += " list=" + path[i].Kind
+			break
+		}
+	}
 	// Non-peer identities x every message: refused, nothing changes.
 	for _, who := range c16NonPeers {
 		for _, msg := range c16Msgs {
@@ -245,7 +267,7 @@ func C16(tier string) int {
 		depth = 9
 		budget = 40 * time.Minute
 	}
-	ops := []POp{{Kind: "prepare-all"}, {Kind: "execute", At: 1}, {Kind: "execute", At: 2}, {Kind: "execute", At: 3}, {Kind: "commit-all"}, {Kind: "abort-all"}}
+	ops := []POp{{Kind: "prepare-all"}, {Kind: "prepare-all-readdressed"}, {Kind: "execute", At: 1}, {Kind: "execute", At: 2}, {Kind: "execute", At: 3}, {Kind: "commit-all"}, {Kind: "abort-all"}}
 	var serial atomic.Uint64
 	samples := ev.NewSamples(5)
 	r, err := bfs.Explore(bfs.Config[POp]{
